@@ -362,6 +362,7 @@ func vcfsRunStore(scn vcfsScenario, failK int) (events []vcfsEvent, nputs int) {
 			failing = scn.Fail != "kth"
 		}
 		r.snap()
+		r.posReads()
 	}
 	r.snap()
 	step := func(op vcfsOp) {
@@ -372,6 +373,9 @@ func vcfsRunStore(scn vcfsScenario, failK int) (events []vcfsEvent, nputs int) {
 		}
 		r.flushStep(scn.Flush)
 		r.snap()
+		if op.Op == "write" || op.Op == "trunc" || (op.Op == "open" && op.Tr) {
+			r.posReads()
+		}
 	}
 	for i := 0; i < total && !r.dead; i++ {
 		var op vcfsOp
